@@ -152,21 +152,23 @@ def add (bas : Inst) (a : Int) : Inst :=
 
 /-! ### epoch conversions -/
 
-/-- tzob.c `__inst_to_epoch`; every intermediate is `unsigned int` (32-bit wrap). -/
-def instToEpoch (i : Inst) : Nat :=
-  let w := 2^32
-  let by0 := (i.y + w - daisyBaseYear - (if i.m < 3 then 1 else 0)) % w
-  let j0 := (by0 * 365 + by0 / 4) % w
-  let yd := if i.m ≤ 12 then tzobMonYday.getD i.m 0 + i.d else 0
-  let days := (j0 + yd + w - daisyUnixBase) % w
-  let h := if i.H ≤ 24 then i.H else 24
-  ((((days * 24 + h) % w * 60 + i.M) % w * 60) % w + i.S) % w
+/-- tzob.c `__inst_to_epoch`: seconds since the unix epoch, negative before 1970.  Years run from March to February and
+count from 1948, backwards before it (`by` is an `int`, the day count a `long`; the C spells the floor division out for
+negative years). -/
+def instToEpoch (i : Inst) : Int :=
+  let by0 : Int := (i.y : Int) - (daisyBaseYear : Nat) - (if i.m < 3 then 1 else 0)
+  let j0 : Int := by0 * 365 + by0 / 4
+  let yd : Int := if i.m ≤ 12 then ((tzobMonYday.getD i.m 0 + i.d : Nat) : Int) else 0
+  let h : Int := if i.H ≤ 24 then (i.H : Nat) else 24
+  (((j0 + yd - (daisyUnixBase : Nat)) * 24 + h) * 60 + (i.M : Nat)) * 60 + (i.S : Nat)
 
-/-- tzob.c `__epoch_to_inst` for `t ≥ 0` -/
-def epochToInst (t : Nat) : Inst :=
-  let w := 2^32
-  let d := (t / 86400 + daisyUnixBase) % w
-  let s := t % 86400
+/-- tzob.c `__epoch_to_inst`: the day number is counted from 1900-03-01 (12 leap cycles = 17532 days = 48 years before
+the base year) so that it is not negative for the dates of the last century; `d` is an `unsigned int` -/
+def epochToInstI (t : Int) : Inst :=
+  let w : Nat := 2^32
+  let dd : Int := t / 86400
+  let d : Nat := ((dd + (daisyUnixBase : Nat) + 17532) % (w : Int)).toNat
+  let s : Nat := (t - dd * 86400).toNat
   let u32 (z : Int) : Nat := (z % (w : Int)).toNat
   let by0 := d / 365
   let f0 := (by0 * 365 + by0 / 4) % w
@@ -183,9 +185,12 @@ def epochToInst (t : Nat) : Inst :=
   let (mon, dom) :=
     if (dom : Int) ≤ cake then (mon, u32 ((doy : Int) - (((mon : Int) - 1) * 32 - 19 + beef)))
     else (mon + 1, u32 ((doy : Int) - ((mon : Int) * 32 - 19 + cake)))
-  { y := (by0 + daisyBaseYear + (if mon > 10 then 1 else 0)) % 65536,
+  { y := (by0 + daisyBaseYear - 48 + (if mon > 10 then 1 else 0)) % 65536,
     m := tzobRm.getD mon 0, d := dom % 256,
     S := s % 60, M := s / 60 % 60, H := (s / 3600) % 256, ms := allSec }
+
+/-- the same for a time that is not negative -/
+def epochToInst (t : Nat) : Inst := epochToInstI t
 
 /-- echsd.c `instant_to_tstamp` (seconds since the unix epoch, negative before 1970): days since 2001-01-01 with the
 Gregorian leap rule in both directions (`FDIV` is floor division, as `/` on `Int` with a positive divisor). -/
